@@ -82,6 +82,11 @@ func (c *FnCtx) sev(sc *specCtx, e *SExpr) *Term {
 				return t
 			}
 		}
+		for _, l := range c.letDefs {
+			if l.Name == e.Name {
+				return c.sev(sc, l.Expr)
+			}
+		}
 		if t := c.lookupLocal(sc, e.Name); t != nil {
 			return t
 		}
@@ -379,7 +384,7 @@ func (c *FnCtx) sevCall(sc *specCtx, e *SExpr) *Term {
 			if sc.old != nil {
 				base = sc.old
 			}
-			return mkAnd(mkLt(base.alloc, x))
+			return mkAnd(mkLt(base.alloc, x), mkLe(x, sc.st.alloc))
 		case "allocated":
 			x := c.sev(sc, args[0])
 			return mkAnd(mkLe(intLit(0), x), mkLe(x, sc.st.alloc))
@@ -841,10 +846,12 @@ func (c *FnCtx) applyDefinedFunc(sc *specCtx, f *SpecFunc, args []*Term, e *SExp
 		c.pre = savePre
 		c.qdepth = saveDepth
 		c.specDepth--
-		if mentions(body, "alloc$tmpl") {
-			c.specErr(e, "spec function %s depends on the allocation state; declare it as macro func", f.Name)
-		}
 		def = &specDef{name: "sf_" + sanitize(f.Name), resSort: body.Sort, resType: body.GoT}
+		if mentions(body, "alloc$tmpl") {
+			// the allocation watermark becomes a parameter
+			tst.tmpl.names = append(tst.tmpl.names, "A:alloc")
+			tst.tmpl.vars["A:alloc"] = leaf("alloc$tmpl", SInt)
+		}
 		if f.Result != "" {
 			def.resType = c.resolveType(f.Result, e)
 			if rs := c.ts.sortOf(def.resType); rs != body.Sort {
@@ -877,6 +884,10 @@ func (c *FnCtx) applyDefinedFunc(sc *specCtx, f *SpecFunc, args []*Term, e *SExp
 	}
 	var all []*Term
 	for i, hn := range def.heapNames {
+		if hn == "A:alloc" {
+			all = append(all, sc.st.alloc)
+			continue
+		}
 		if strings.HasPrefix(hn, "G:") {
 			t, ok := sc.st.heap[hn]
 			if !ok {
